@@ -3,43 +3,40 @@
    Model: Types/Schema.v (new_schema_fuel, append_type_fuel); Spec: Types/Consistent.v. *)
 From Coq Require Import List NArith Bool String.
 From GQL Require Import Base.Bytes Types.Schema Types.Consistent Proofs.TypesReduce Proofs.TypesNames
-  Proofs.TypesClosed Proofs.TypesView Proofs.TypesImpl Proofs.TypesMain.
+  Proofs.TypesClosed Proofs.TypesView Proofs.TypesImpl Proofs.TypesMain Proofs.TypesPossible
+  Proofs.TypesConsistent Proofs.TypesOracle Proofs.TypesAppend.
 Import ListNotations.
 Open Scope string_scope.
 Open Scope N_scope.
 
-(* Whatever NewSchema returns without error (any fuel, any configuration): named types are
-   unique and legally named; every entry of the type map has all the types it refers to
-   (interfaces, union members, field, argument and input-field types) in the map, well-formed
-   wrappers, output types on fields and input types on arguments and input fields; the root
-   types are objects of the map.  These are the clauses cs_unique, cs_names, cs_closed,
-   cs_query, cs_mutation, cs_subscription of Consistent. *)
-Theorem C11_consistent_partial : forall fuel c sch, new_schema_fuel fuel c = OK sch ->
-  let V := view_of sch in
-  NoDup (map vt_name (v_types V))
-  /\ (forall vt, In vt (v_types V) -> valid_name (vt_name vt) = true)
-  /\ (forall vt, In vt (v_types V) -> type_ok (v_types V) vt = true)
-  /\ (exists q, v_query V = Some q /\ is_vobject (v_types V) q = true)
-  /\ (forall m, v_mutation V = Some m -> is_vobject (v_types V) m = true)
-  /\ (forall m, v_subscription V = Some m -> is_vobject (v_types V) m = true).
-Proof. exact consistent_partial. Qed.
-Print Assumptions C11_consistent_partial.
+(* Building a schema either returns an error or returns a schema whose public view is a
+   consistent type system (every clause of Consistent), for every configuration and every fuel.
+   with_meta puts the library's own definitions (built-in scalars, introspection types) next to
+   the user's, as the Go library does. *)
+Theorem C11_consistent : forall fuel c sch, new_schema_fuel fuel (with_meta c) = OK sch -> Consistent (view_of sch).
+Proof. exact consistent_full. Qed.
+Print Assumptions C11_consistent.
 
-(* clause cs_meta: with the library's own definitions next to the user's, the introspection
-   types are in the type map *)
-Theorem C11_meta_partial : forall fuel c sch, new_schema_fuel fuel (with_meta c) = OK sch ->
-  forall n, In n meta_names -> In n (map vt_name (v_types (view_of sch))).
-Proof. exact meta_present. Qed.
-Print Assumptions C11_meta_partial.
+(* The same for any list of definitions whatsoever, minus the clause "the introspection types
+   are there" (which is about the library's own definitions) and the roots *)
+Theorem C11_consistent_any_defs : forall fuel c sch, new_schema_fuel fuel c = OK sch -> core_consistent (view_of sch).
+Proof. exact consistent_core. Qed.
+Print Assumptions C11_consistent_any_defs.
 
-(* clause cs_implements, relative to the schema's own IsPossibleType table: every object of
-   the map implements each interface it declares -- all fields present, covariant result
-   type, identical argument types, no additional required argument *)
-Theorem C11_implements_partial : forall fuel c sch, new_schema_fuel fuel c = OK sch ->
-  forall o i jf, In o (objects_of sch) -> In i (interfaces_of (s_defs sch) o) -> In jf (fields_of (s_defs sch) i) ->
-    implements_field (abstract_possible sch) (fields_of (s_defs sch) o) jf.
-Proof. exact implements_partial. Qed.
-Print Assumptions C11_implements_partial.
+(* The executable oracle with which the runner judges what the implementation returned is the Spec *)
+Theorem C11_oracle_decides : forall V, consistentb V = true <-> Consistent V.
+Proof. exact consistentb_iff. Qed.
+Print Assumptions C11_oracle_decides.
+
+(* The schema's PossibleTypes / IsPossibleType tables are the possible types the declarations give *)
+Theorem C11_possible_types_declared : forall fuel c sch a o, new_schema_fuel fuel c = OK sch ->
+  In a (ids (s_tm sch)) -> In o (ids (s_tm sch)) ->
+  (abstract_possible sch a o = true <-> possible (v_types (view_of sch)) a o = true).
+Proof.
+  intros fuel c sch a o H. destruct (new_schema_invariants _ _ _ H) as (Hg & Hc & _).
+  exact (abstract_possible_spec sch Hg Hc a o).
+Qed.
+Print Assumptions C11_possible_types_declared.
 
 (* isTypeSubTypeOf as coded decides the subtype relation of the specification, and the
    per-field interface check decides implements_field, for every possible-type relation *)
@@ -63,25 +60,34 @@ Theorem C11_errors_surface : forall fuel c sch, new_schema_fuel fuel c = OK sch 
 Proof. exact errors_surface. Qed.
 Print Assumptions C11_errors_surface.
 
-(* AppendType keeps all of this: names unique and legal, map closed under reference *)
-Theorem C11_append_preserves_partial : forall fuel S t S',
-  tm_good (s_defs S) (s_tm S) -> closed (s_defs S) (s_tm S) ->
-  append_type_fuel fuel S t = OK S' ->
-  tm_good (s_defs S') (s_tm S') /\ closed (s_defs S') (s_tm S')
-  /\ incl (ids (s_tm S)) (ids (s_tm S'))
-  /\ NoDup (map vt_name (v_types (view_of S')))
-  /\ (forall vt, In vt (v_types (view_of S')) -> type_ok (v_types (view_of S')) vt = true).
-Proof.
-  intros fuel S t S' Hg Hc H.
-  pose proof (append_type_fuel_good _ _ _ _ Hg H) as Hg'.
-  destruct (append_type_fuel_closed _ _ _ _ Hc H) as [Hc' Hi].
-  repeat split; auto.
-  - exact (proj1 Hg').
-  - exact (proj2 Hg').
-  - exact (good_unique_names S' Hg').
-  - exact (good_closed_type_ok _ _ Hg' Hc').
-Qed.
-Print Assumptions C11_append_preserves_partial.
+(* AppendType keeps the schema consistent *)
+Theorem C11_append_consistent : forall f0 f1 c ts sch sch',
+  new_schema_fuel f0 (with_meta c) = OK sch -> append_types_fuel f1 sch ts = OK sch' -> Consistent (view_of sch').
+Proof. exact append_consistent. Qed.
+Print Assumptions C11_append_consistent.
+
+(* Appending types afterwards gives the same schema as supplying them up front: same definitions,
+   roots and type map ... *)
+Theorem C11_append_commutes : forall f0 f1 f2 c ts sch0 sch1 sch2,
+  new_schema_fuel f0 c = OK sch0 -> append_types_fuel f1 sch0 ts = OK sch1 ->
+  new_schema_fuel f2 (with_types c ts) = OK sch2 ->
+  same_schema sch1 sch2.
+Proof. exact append_commutes. Qed.
+Print Assumptions C11_append_commutes.
+
+(* ... and the same public view: same types, roots, PossibleTypes and IsPossibleType rows *)
+Theorem C11_append_commutes_view : forall f0 f1 f2 c ts sch0 sch1 sch2,
+  new_schema_fuel f0 c = OK sch0 -> append_types_fuel f1 sch0 ts = OK sch1 ->
+  new_schema_fuel f2 (with_types c ts) = OK sch2 ->
+  same_view (view_of sch1) (view_of sch2).
+Proof. exact append_commutes_view. Qed.
+Print Assumptions C11_append_commutes_view.
+
+(* the type map is exactly what the roots, the introspection root and SchemaConfig.Types reach *)
+Theorem C11_type_map_is_reachable : forall fuel c sch, new_schema_fuel fuel c = OK sch ->
+  forall y, In y (ids (s_tm sch)) <-> reachable (c_defs c) (initial_types c) y.
+Proof. exact new_schema_map. Qed.
+Print Assumptions C11_type_map_is_reachable.
 
 (* ---------- non-vacuity ---------- *)
 Definition ex_cfg : config :=
